@@ -45,14 +45,14 @@ def run(chk):
     chk.assume_note('P-SUPPLY: the inputs of one transaction sum to at most 2^127 per denomination')
     shapes = [(2, 2)] if chk.tier == 'quick' else [(2, 2), (3, 3)]
     for ni, no in shapes:
-        balance_kernel(chk, it, ni, no)
+        chk.guard(balance_kernel, chk, it, ni, no)
     # K1 takes the inputs of one transaction to be pairwise different and to exist: load_relevant_coins, which runs first
     # on the whole batch, guarantees that (and that no coin is consumed twice across the batch) -- decided here as in C02
     from props import c02
-    c02.input_kernel(chk, it, [(1, 1, 1), (2, 1, 1)])
+    chk.guard(c02.input_kernel, chk, it, [(1, 1, 1), (2, 1, 1)])
     it.overrides = [o for o in it.overrides if o[0].pattern != r'Transaction::base_fee']
-    subsidy_kernel(chk, it)
-    pegging_kernel(chk, it)
+    chk.guard(subsidy_kernel, chk, it)
+    chk.guard(pegging_kernel, chk, it)
 
 
 # ---------------------------------------------------------------------------------------------------------------
